@@ -599,7 +599,13 @@ static void do_rpregion(const J& g, W& w) {
         start = s.f(1.0);
         grad = s.df(1.0);
     }
-    r.elements[0].end_type = g["ends"].s() == "round" ? EndType::Round : EndType::Flush;
+    const std::string ends = g["ends"].s();
+    r.elements[0].end_type = ends == "round" ? EndType::Round : ends == "halfwidth" ? EndType::HalfWidth : EndType::Flush;
+    // optional magnification about the origin (scale_width: widths and offsets follow); the samples are
+    // magnified with the path, so clearances computed in the unscaled frame are conservative for mag >= 1
+    double mag = g.has("mag") ? (double)g["mag"].i() : 1.0;
+    r.scale_width = true;
+    if (mag != 1.0) r.scale(mag, Vec2{0, 0});
     // optionally rotate the finished path by atan(3/4); the samples are rotated with it, so the
     // clearances computed from the unrotated exact curve stay valid
     bool rotated = g.has("rot") && g["rot"].i() != 0;
@@ -619,6 +625,18 @@ static void do_rpregion(const J& g, W& w) {
             cen.push_back(s.f(u) + n * off);
         }
     double hw = width / 2;
+    if (ends == "halfwidth" && !cen.empty()) {
+        const int K = 200;
+        Vec2 d0 = secs.front().df(0.0), d1 = secs.back().df(1.0);
+        d0 = d0 * (1.0 / (d0.length() + 1e-300));
+        d1 = d1 * (1.0 / (d1.length() + 1e-300));
+        Vec2 a = cen.front(), b = cen.back();
+        std::vector<Vec2> ext;
+        for (int i = K; i >= 1; i--) ext.push_back(a - d0 * (hw * i / K));
+        ext.insert(ext.end(), cen.begin(), cen.end());
+        for (int i = 1; i <= K; i++) ext.push_back(b + d1 * (hw * i / K));
+        cen.swap(ext);
+    }
     // classify sample points: signed clearance (distance to centre curve - half width) in
     // milli-tolerances, whether the nearest centre point is an interior one, and membership
     w.key("samples").begin_arr();
@@ -637,9 +655,11 @@ static void do_rpregion(const J& g, W& w) {
                 }
                 double clr = sqrt(best) - hw;
                 if (fabs(clr) > 0.3) continue;  // only the band around the outline is informative
-                bool interior = bi > 5 && bi + 5 < cen.size();
+                // a round cap covers the whole disc around the end point; flush ends cover nothing beyond
+                bool interior = ends == "round" || (bi > 5 && bi + 5 < cen.size());
                 int64_t cm = (int64_t)fmax(-1e6, fmin(1e6, clr >= 0 ? ceil(clr / (tol * 1e-3)) : floor(clr / (tol * 1e-3))));
                 Vec2 qr = rotated ? Vec2{ca * q.x - sa * q.y, sa * q.x + ca * q.y} : q;
+                qr = qr * mag;
                 w.begin_arr().i(inside_poly(out[0]->point_array, qr) ? 1 : 0).i(cm).i(interior ? 1 : 0).end_arr();
             }
     }
